@@ -214,7 +214,10 @@ class Interp:
         b = s.P.builtins(s)
         if name in b:
             return b[name]
-        raise Unsupported('name %s' % name)
+        import builtins as _b
+        if hasattr(_b, name):
+            raise Unsupported('python builtin %s is not modelled' % name)
+        raise Raised('UnboundLocalError', "name '%s' is not bound on this path" % name)
 
     # ---------------------------------------------------------------- expressions
     def ev(s, n, env):
@@ -271,6 +274,13 @@ class Interp:
             if op in ('+', '-', '*', '/'):
                 return P.tensor_bin(op, a, b)
             raise Unsupported('tensor op ' + op)
+        if isinstance(a, TV) or isinstance(b, TV):
+            if op == '**' and is_conc(b) and b == 2:
+                return a * a
+            if op in ('+', '-', '*', '/'):
+                x_, y_ = TV.of(a), TV.of(b)
+                return {'+': x_ + y_, '-': x_ - y_, '*': x_ * y_, '/': x_ / y_}[op]
+            raise Unsupported('term op ' + op)
         if op == '*' and isinstance(a, (list, tuple)) and (isz(b) or is_conc(b)):
             if is_conc(b):
                 return a * b
